@@ -187,11 +187,10 @@ class AsyncMap:
     __slots__ = ("source_stream", "map_value")
 
     def __init__(self, source_stream, map_value):
-        # The source can be any async iterable (e.g. an object whose
-        # `__aiter__` is an async generator), not only an async iterator.
-        if not hasattr(type(source_stream), "__anext__"):
-            source_stream = type(source_stream).__aiter__(source_stream)
-        self.source_stream = source_stream
+        # The source can be any async iterable: like `async for`, always go
+        # through `__aiter__` (it may set the iteration up, or hand out a
+        # different iterator object).
+        self.source_stream = type(source_stream).__aiter__(source_stream)
         self.map_value = map_value
 
     def __aiter__(self):
